@@ -20,23 +20,26 @@ _SCRATCH = None
 
 
 def scratch_dir():
-    global _SCRATCH
-    if _SCRATCH is None or not os.path.isdir(_SCRATCH) or _SCRATCH_PID != os.getpid():
-        base = "/dev/shm" if os.path.isdir("/dev/shm") and os.access("/dev/shm", os.W_OK) else None
-        _set_scratch(tempfile.mkdtemp(prefix="gaftools-verif-%d-" % os.getpid(), dir=base))
+    """Per-OS-process scratch directory (under $VERIF_SCRATCH_ROOT if the master created one, which the
+    master removes at the end even if workers were killed)."""
+    global _SCRATCH, _SCRATCH_PID
+    if _SCRATCH is None or _SCRATCH_PID != os.getpid() or not os.path.isdir(_SCRATCH):
+        root = os.environ.get("VERIF_SCRATCH_ROOT")
+        if root and os.path.isdir(root):
+            d = os.path.join(root, "p%d" % os.getpid())
+            os.makedirs(d, exist_ok=True)
+        else:
+            base = "/dev/shm" if os.path.isdir("/dev/shm") and os.access("/dev/shm", os.W_OK) else None
+            d = tempfile.mkdtemp(prefix="gaftools-verif-%d-" % os.getpid(), dir=base)
+            import atexit
+
+            atexit.register(lambda d=d, pid=os.getpid(): os.getpid() == pid and shutil.rmtree(d, ignore_errors=True))
+        _SCRATCH = d
+        _SCRATCH_PID = os.getpid()
     return _SCRATCH
 
 
 _SCRATCH_PID = None
-
-
-def _set_scratch(d):
-    global _SCRATCH, _SCRATCH_PID
-    _SCRATCH = d
-    _SCRATCH_PID = os.getpid()
-    import atexit
-
-    atexit.register(lambda d=d, pid=os.getpid(): os.getpid() == pid and shutil.rmtree(d, ignore_errors=True))
 
 
 def shash(*parts):
